@@ -262,7 +262,7 @@ pub fn check(ctx: &Ctx) -> i32 {
     let mut ev = Evidence::default();
     ev.rule = "focused Core programs obtained from generated Fun programs (all constructs, effects anywhere); every cut is classified by (producer shape | consumer shape @ type class) and the histogram is reported; oracle: Core machine on the FsProg vs named AxCut machine on shrink_prog's output (output, result, termination), plus: free variables of every definition are parameters, lifted definitions' parameters are exactly their free variables, binders unique along every path. Non-trivial: the program contains a critical pair or unknown cut at a type with >= 2 xtors or a known cut (constructor against case / cocase against destructor); distinct by hash of (source, arguments). Second domain: focused programs obtained by Prog::focus() from directly generated well-typed Core programs (gen_core, see C03), which contain every cut shape at every kind of type (reported as core-cut:* classes); same oracle.".into();
     ev.assumptions = vec!["Core and AxCut machines as in DESIGN.md 3.2/3.3".into()];
-    let n = ctx.tier.pick(6000, 400000);
+    let n = ctx.tier.pick(16000, 400000);
     // debugging aid: VERIF_ONLY=gencore skips the first domain
     let n = if std::env::var("VERIF_ONLY").as_deref() == Ok("gencore") { 0 } else { n };
     let run = |b: &[u8]| {
@@ -280,7 +280,7 @@ pub fn check(ctx: &Ctx) -> i32 {
     // second domain: Core programs generated directly
     if report.violations.is_empty() {
         use super::corecase::{self, Mode};
-        let n2 = ctx.tier.pick(6000, 400000);
+        let n2 = ctx.tier.pick(12000, 400000);
         let run2 = |b: &[u8]| corecase::run(ctx, Mode::Shrink, b);
         let out2 = drive(&mut ev, ctx.seed, 104, n2, 60, 1500, 300, &run2);
         if let Some((bytes, f)) = out2.failure {
